@@ -190,6 +190,79 @@ def r_token_raw(rule, root=None):
         rule.bad("token|from_raw", "CancelToken::from_raw must rebuild the Arc with Arc::from_raw(ptr)", A.where(b))
 
 
+def r_token_consumers(rule, root=None):
+    """the cancel token is consulted only where the answer turns into an abort (recurse -> false, a tile ->
+    Err(())): a poll that produces an ordinary value instead (an "empty" placeholder) ends up in a result
+    that is returned as if complete"""
+    n = 0
+    for path in (OCT, R.LIB, R.PIX, R.VOX):
+        for f in A.load(path, root)["_fns"]:
+            if f["_test"] or f.get("body") is None or f["name"] == "is_cancelled":
+                continue
+            for c in A.find(f["body"], "MethodCall"):
+                if c["method"] != "is_cancelled":
+                    continue
+                n += 1
+                holder = None
+                for i in A.find(f["body"], "If"):
+                    if any(x is c for x in A.walk(i["cond"])):
+                        holder = i
+                if holder is None:
+                    rule.bad("token|consumer|%s" % f["name"], "%s reads the cancel token outside a condition" % A.fn_label(f), A.where(f, c))
+                    continue
+                leafs = A.branch_leaves(holder["then"])
+                bad = []
+                for leaf, _cx in leafs:
+                    l_ = A.strip(leaf)
+                    if l_.get("k") == "Block" and l_.get("stmts"):
+                        l_ = A.strip(A.stmt_expr(l_["stmts"][-1]) or l_)
+                    t_ = str(txt(l_))
+                    if l_.get("k") == "Return":
+                        t_ = str(txt(l_.get("e") or {}))
+                    if t_ not in ("false", "Err(())", "None", "returnfalse", "returnNone"):
+                        bad.append(t_)
+                if bad:
+                    rule.bad("token|consumer|%s" % f["name"], "%s answers a set cancel token with `%s`: that is an ordinary value, and whoever receives it cannot tell a cancelled run from a finished one (a cancelled build must end as None)" % (A.fn_label(f), bad[0][:40]), A.where(f, holder))
+                else:
+                    rule.ok("%s turns a set token into an abort" % A.fn_label(f), file=path, line=c["ln"])
+    if n < 3:
+        rule.lost("the three polls of the cancel token (mesh recurse, two per-tile polls), found %d" % n)
+
+
+def r_pool_free_parameters(rule, root=None):
+    """what is rendered does not depend on the pool: in the 2D / 3D `render` entry points nothing computed from
+    `threads` (the pool, its size) flows into the tiles, tile sizes, shape or configuration handed to
+    render_tiles - the pool is passed along only inside eval_config"""
+    for path, label in ((R.PIX, "2D"), (R.VOX, "3D")):
+        f = A.find_fn(path, "render", root=root)
+        tainted = set()
+        changed = True
+        lets = [l for l in A.find(f["body"], "Let") if l.get("init") is not None]
+        while changed:
+            changed = False
+            for l in lets:
+                names = [n_["name"] for n_ in A.walk(l["pat"]) if n_.get("k") == "PIdent"]
+                t_ = str(txt(l["init"]))
+                if (re.search(r"\bthreads\b|thread_count", t_) or any(re.search(r"\b%s\b" % re.escape(x), t_) for x in tainted)) and not set(names) <= tainted:
+                    tainted |= set(names)
+                    changed = True
+        calls = [c for c in A.find(f["body"], "Call") if (A.path_segs(c["func"]) or [None])[-1] == "render_tiles"]
+        if len(calls) != 1:
+            rule.lost("%s render: the call to render_tiles" % label)
+            continue
+        bad = []
+        for a in calls[0]["args"]:
+            t_ = str(txt(a))
+            if t_ == "eval_config":
+                continue
+            if re.search(r"\bthreads\b|thread_count", t_) or any(re.search(r"\b%s\b" % re.escape(x), t_) for x in tainted):
+                bad.append(t_)
+        if bad:
+            rule.bad("pool|parameters|%s" % label, "%s render hands `%s` to render_tiles, and that value was computed from the thread pool: the tile list / configuration - and with it the rendered data - then depends on how many threads run" % (label, bad[0][:40]), A.where(f, calls[0]))
+        else:
+            rule.ok("%s render: nothing derived from the pool reaches the tiling parameters" % label, file=path, line=calls[0]["ln"])
+
+
 def r1c_mt_precondition(rule, root=None):
     """build_inner_mt unwraps the (parent, slot) index of every task cell; only cells created by its split loop
     have one, so the loop must run at least once for every input that reaches the function"""
@@ -289,6 +362,10 @@ def run(ctx):
     ctx.guarded(r, r1_cancellation)
     r = ctx.rule("R1d", "a cancel token sent through a raw pointer carries its own reference count there and back", 2)
     ctx.guarded(r, r_token_raw)
+    r = ctx.rule("R1e", "the cancel token is consulted only where a set token becomes an abort", 3)
+    ctx.guarded(r, r_token_consumers)
+    r = ctx.rule("R3c", "nothing derived from the thread pool reaches the tiling parameters", 2)
+    ctx.guarded(r, r_pool_free_parameters)
     r = ctx.rule("R1c", "the pooled meshing path is reached only with inputs for which every task has a parent slot", 1)
     ctx.guarded(r, r1c_mt_precondition)
     r = ctx.rule("R2", "shared-state inventory: vetted unsafe Send/Sync, only the cancel flag is interiorly mutable, JIT handles immutable", 14)
